@@ -31,11 +31,10 @@ def extract(ck):
                      "def %s (ii jj kk ll : Nat) : Prop := %s\n"
                      "instance (ii jj kk ll : Nat) : Decidable (%s ii jj kk ll) := by unfold %s; infer_instance\n") % (doc, key, out[key], key, key)
         body += "end QV.Gen.C01\n"
-        ck.gen("C01", body)
+        ck.gen("C01", body, facts=True)
         return True
     except (X.ExtractError, Exception) as e:
-        ck.tie_fail("extraction of the secular masks failed: %r" % (e,))
-        return False
+        return bool(ck.tie_fallback("C01", "extraction of the secular masks failed: %r" % (e,), default=False))
 
 
 class Stub:
